@@ -289,6 +289,9 @@ def _zero_tests(test, name):
     elif isinstance(test, ast.UnaryOp) and isinstance(test.op, ast.Not) \
             and is_name(test.operand):
         yield ('false', None)
+    elif isinstance(test, ast.UnaryOp) and isinstance(test.op, ast.Not):
+        for (edge, x) in _zero_tests(test.operand, name):
+            yield ('false' if edge == 'true' else 'true', None)
     elif isinstance(test, ast.Compare) and len(test.ops) == 1:
         l, op, r = test.left, test.ops[0], test.comparators[0]
         if is_name(l) and isinstance(r, ast.Constant) and isinstance(
@@ -320,6 +323,12 @@ def _zero_tests(test, name):
             for (edge, x) in _zero_tests(v, name):
                 if edge == 'true':
                     yield ('true', None)
+    elif isinstance(test, ast.BoolOp) and isinstance(test.op, ast.Or):
+        # not (a or b) = not a and not b
+        for v in test.values:
+            for (edge, x) in _zero_tests(v, name):
+                if edge == 'false':
+                    yield ('false', None)
 
 
 def step_and_chunk_sites(db, fi):
